@@ -44,6 +44,13 @@ def frame(scene):
     })
     if scene.get('index') is not None:
         df.index = pd.Index(scene['index'])
+    if scene.get('extra') == 'objects':
+        # superfluous columns (documented as warning-only) holding arbitrary objects
+        n = len(df)
+        df['aux'] = [[i, i + 1] for i in range(n)]
+        df['info'] = [{'k': i} for i in range(n)]
+        df['arr'] = [np.arange(3) for _ in range(n)]
+        df['when'] = pd.Timestamp('2024-01-01')
     return df
 
 
@@ -101,7 +108,7 @@ def _snap(rng, h):
     if u < 0.20:
         return float(round(h, -2))
     if u < 0.22:
-        return float(np.nextafter(round(h, -2), -np.inf))
+        return float(max(0.0, np.nextafter(round(h, -2), -np.inf)))     # never below 0 (no negative denormals)
     return float(h)
 
 
@@ -248,7 +255,7 @@ def flat_layers_scene(rng, layers, nce=1, nt=40, step=15.0, names=None, jitter=0
         cnt = min(int(L['count']), len(meas))
         sel = rng.permutation(len(meas))[:cnt]
         for j in sel:
-            h = L['h'] + (float(rng.normal(0, L.get('std', 0))) if L.get('std', 0) else 0.0)
+            h = L['h'] + float(rng.normal(0, L['std'])) if L.get('std', 0) else L['h']     # keeps -0.0
             seen[meas[j]].append(float(h))
         if li == 0 and double_hits:
             for j in sel[:double_hits]:
